@@ -345,6 +345,35 @@ func (fe *FuncEnc) loopNames(f *Frame, li *loopInfo, phiVal func(*ssa.Phi) Term,
 			m[name] = TV{phiVal(phi), phi.Type()}
 		}
 	}
+	// `iter` for a counting loop written with an explicit index (for i := c; ...; i++): iterations completed = i - c.
+	// Keeps invariants stated with `iter` valid when a range loop is rewritten as an index loop.
+	if _, ok := m["iter"]; !ok {
+		for _, in := range li.header.Instrs {
+			phi, ok := in.(*ssa.Phi)
+			if !ok {
+				break
+			}
+			if b, isB := phi.Type().Underlying().(*types.Basic); !isB || b.Kind() != types.Int || len(phi.Edges) != 2 {
+				continue
+			}
+			var init *ssa.Const
+			step := false
+			for _, e := range phi.Edges {
+				switch x := e.(type) {
+				case *ssa.Const:
+					init = x
+				case *ssa.BinOp:
+					if c, isC := x.Y.(*ssa.Const); isC && x.Op == token.ADD && x.X == phi && c.Value != nil && c.Value.ExactString() == "1" {
+						step = true
+					}
+				}
+			}
+			if init != nil && init.Value != nil && step {
+				m["iter"] = TV{tSub(phiVal(phi), fe.val(init)), types.Typ[types.Int]}
+				break
+			}
+		}
+	}
 	return m
 }
 
